@@ -333,6 +333,12 @@ fn coeff_flow<H: CoeffHelper>(cx: &mut Cx, rng: &mut Rng, kit: &Kit, benc: Optio
             };
             if let Some(gk) = pack { y = step!(cx, op_mul, h.pack(&kit.eval, gk, &y)); }
             if let Ok(b) = lib(|| kit.dec.invariant_noise_budget(&y.data[0].data[0])) { cx.rep.min(&format!("noise_budget_bits_after_product.{}", hn), b as f64); }
+            // in a third of the runs the outputs are switched down one level before they travel (in BGV they then carry a correction
+            // factor other than 1): transport and output decoding must not depend on the level
+            if kit.levels.len() >= 2 && (t as f64) * (n as f64) * 4.0 < pow2f(56) && rng.chance(1, 3) {
+                step!(cx, "Evaluator::mod_switch_to_next(outputs)", { for row in y.data.iter_mut() { for c in row.data.iter_mut() { kit.eval.mod_switch_to_next_inplace(c); } } });
+                cx.info["outputs_mod_switched"] = json!(true); cx.rep.count("outputs_level", &format!("{}|switched_down_before_transport", hn));
+            } else { cx.rep.count("outputs_level", &format!("{}|first_level", hn)); }
             let mut yt = step!(cx, format!("Cipher2d::{}", tr.name()), do_transport(&kit.ctx, &y, tr, &terms));
             let Some(got) = dec_u(cx, kit, be, h, &yt) else { return; };
             if let Some(d) = first_mismatch_u(&got, expect) { cx.viol(&op_mul, "value", d); return; }
@@ -425,7 +431,8 @@ fn cheetah_shapes(n: usize, boxmax: usize) -> Vec<(usize, usize, usize)> {
 fn cheetah_case(cfg: &Cfg, grp: &'static str, case: u64, rng: &mut Rng, rep: &mut Report, n: usize, ckks: bool, shape: (usize, usize, usize), large: bool) {
     let (m, r, k) = shape;
     let t = if ckks { 0 } else if large { 1u64 << *rng.pick(&[13u32, 20]) } else { 1u64 << *rng.pick(&[1u32, 4, 13, 20, 32]) };
-    let scheme = if ckks { SchemeType::CKKS } else { SchemeType::BFV };
+    // every fourth exact case runs under BGV (same plaintext space and helper entry points as BFV; ciphertexts carry a correction factor)
+    let scheme = if ckks { SchemeType::CKKS } else if case % 4 == 3 { SchemeType::BGV } else { SchemeType::BFV };
     let Some(spec) = make_spec(rng, scheme, n, t, "cheetah", 2) else { rep.harness_errors.push("C20 cheetah: no primes".into()); return; };
     let kit = match Kit::new(&spec) { Ok(k) => k, Err(e) => { rep.harness_errors.push(format!("C20 cheetah kit: {}", e)); return; } };
     let benc = if ckks { None } else { match lib(|| BatchEncoder::new(kit.ctx.clone())) { Ok(b) => Some(b), Err(p) => { rep.harness_errors.push(format!("C20 BatchEncoder::new: {}", p.0)); return; } } };
@@ -433,7 +440,7 @@ fn cheetah_case(cfg: &Cfg, grp: &'static str, case: u64, rng: &mut Rng, rep: &mu
     // overlapping but different set of Galois elements), as an application that uses both matrix-product methods does
     if case % 2 == 1 { let r = lib(|| kit.keygen.create_galois_keys(false)); rep.count("history_prelude", if r.is_ok() { "rotation keys before automorphism keys" } else { "rotation keys refused" }); }
     let auto = match lib(|| kit.keygen.create_automorphism_keys(false)) { Ok(a) => a, Err(p) => { rep.harness_errors.push(format!("C20 create_automorphism_keys: {}", p.0)); return; } };
-    let sname = if ckks { "CKKS" } else { "BFV" };
+    let sname = if ckks { "CKKS" } else if scheme == SchemeType::BGV { "BGV" } else { "BFV" };
     for obj in OBJS { for pack in [false, true] {
         let dirs: &[Dir] = if matches!(obj, MatmulHelperObjective::CpAddPc) { &[Dir::Fwd, Dir::Rev, Dir::Sum] } else { &[Dir::Fwd, Dir::Rev] };
         let helper = match lib(|| MatmulHelper::new(m, r, k, n, obj, pack)) {
